@@ -148,7 +148,12 @@ def handle (j : Json) : Except String Json := do
     let u := unmappedRaw lv r.name r.args (stOf r)
     Json.arr #[.str u.name, strsJ (u.args.map render),
       .arr (u.stoich.map fun kc => Json.arr #[.str kc.1, coefJ kc.2]).toArray]).toArray
-  let danglingL := unmapped.flatMap fun r => danglingOf lv (stOf r)
+  -- … and the mapped reactions whose map covers the substrates but not the product atoms (`len < nProd`): the
+  -- product names cut from the too short product string are no variables either (finding F-C05-5)
+  let uncovered := base.rxns.filterMap fun r => match maps.lookup r.name with
+    | some lm => if lm.length < nProd lv r then some r.name else none
+    | none => none
+  let danglingL := (unmapped.flatMap fun r => danglingOf lv (stOf r)) ++ uncovered
   let dangling := strsJ danglingL
   -- the label string `build_model` computes for every `initial_labels` entry of a listed compound
   let initSuf := Json.arr (initI.filterMap fun kp =>
